@@ -358,6 +358,18 @@ func (rn *runner) walletTx(out *caseOut, ti int, t *txIn, to *txObs) error {
 	}
 	before := r.db.Commits
 	switch via := t.Ops[0].Via; via {
+	case "initwatch":
+		// wallet.InitAccounts(scope, watchOnly=true, 0): the wallet's call site of
+		// ConvertToWatchingOnly (no further accounts are created)
+		if len(t.Ops) != 1 || t.Ops[0].K != "convert" || t.Fate != "commit" {
+			return fmt.Errorf("transaction %d: bad initwatch transaction", ti)
+		}
+		if err := r.w.InitAccounts(r.sm, true, 0); err != nil {
+			to.Outs = append(to.Outs, errAns(err))
+		} else {
+			to.Outs = append(to.Outs, answer{K: "ok"})
+		}
+		return nil
 	case "importacct", "importdry":
 		if (via == "importdry") != (t.Fate == "dryrun") || (via == "importacct" && t.Fate != "commit") {
 			return fmt.Errorf("transaction %d: fate %q does not fit %s", ti, t.Fate, via)
